@@ -9,6 +9,7 @@ import (
 	"strconv"
 	"strings"
 
+	"golang.org/x/tools/go/packages"
 	"golang.org/x/tools/go/ssa"
 
 	"verif/checker/internal/an"
@@ -654,6 +655,7 @@ func c165(c *an.Ctx, p *an.Prog) {
 	type cmd struct {
 		name   string
 		action *types.Func
+		expr   ast.Expr // the Action value as written
 		pos    token.Pos
 	}
 	var cmds []cmd
@@ -684,6 +686,7 @@ func c165(c *an.Ctx, p *an.Prog) {
 							cm.name, _ = strconv.Unquote(bl.Value)
 						}
 					case "Action":
+						cm.expr = kv.Value
 						if id, ok := kv.Value.(*ast.Ident); ok {
 							if fo, ok := pk.TypesInfo.Uses[id].(*types.Func); ok {
 								cm.action = fo
@@ -759,11 +762,20 @@ func c165(c *an.Ctx, p *an.Prog) {
 	sort.Slice(cmds, func(i, j int) bool { return cmds[i].name < cmds[j].name })
 	gated := 0
 	for _, cm := range cmds {
-		if cm.action == nil {
-			c.Undecided("C16.5", "command:"+cm.name, p.Pos(cm.pos), "UNRESOLVED: command action is not a named function")
-			continue
+		// The action is either a named function, or a module wrapper applied to one ("checked(cmdAdd)"): the wrapper
+		// returns a closure (the outer layer, which must obtain the store) that calls the wrapped function (the inner
+		// layer, which may use only the store it is handed).
+		var fn, inner *ssa.Function
+		var innerFV *ssa.FreeVar
+		if cm.action != nil {
+			fn = p.SSA.FuncValue(cm.action)
+		} else if cm.expr != nil {
+			fn, inner, innerFV = cliActionLayers(p, pk, cm.expr)
+			if fn == nil {
+				c.Undecided("C16.5", "command:"+cm.name, p.Pos(cm.pos), "UNRESOLVED: command action is neither a named function nor a module wrapper around one")
+				continue
+			}
 		}
-		fn := p.SSA.FuncValue(cm.action)
 		if fn == nil {
 			c.Undecided("C16.5", "command:"+cm.name, p.Pos(cm.pos), "UNRESOLVED: no SSA for action")
 			continue
@@ -776,28 +788,62 @@ func c165(c *an.Ctx, p *an.Prog) {
 		gated++
 		var bad []string
 		// (a) does not call NewStore itself (nor through anything but openAndCheck)
-		reach := p.Reach([]*ssa.Function{fn}, an.ReachOpts{OnlyRepo: true, CrossGo: true, Stop: func(f *ssa.Function) bool { return f == oac }})
+		roots := []*ssa.Function{fn}
+		if inner != nil {
+			roots = append(roots, inner)
+		}
+		reach := p.Reach(roots, an.ReachOpts{OnlyRepo: true, CrossGo: true, Stop: func(f *ssa.Function) bool { return f == oac }})
 		if _, ok := reach[newStore]; ok {
 			bad = append(bad, "reaches NewStore without going through openAndCheck: "+an.Chain(reach, newStore))
 		}
 		// (b) every GetInterface receiver / store use derives from openAndCheck's result under err == nil
 		nUses := 0
+		fromOAC := func(s *an.PathState, t *an.Term, where string) {
+			oc, i := t.CallOf()
+			if oc == nil || oc.Aux != mainPkg+".openAndCheck" || i != 0 {
+				bad = append(bad, "store used at "+where+" is not openAndCheck's result: "+t.K)
+				return
+			}
+			if !callErrNil(s, oc) {
+				bad = append(bad, "store used at "+where+" without openAndCheck err==nil")
+			}
+		}
 		for _, in := range an.DeepInstrs(fn) {
-			{
-				ci, ok := in.(ssa.CallInstruction)
-				if !ok || an.CalleeName(ci) != "(*"+mainPkg+".store).GetInterface" {
+			ci, ok := in.(ssa.CallInstruction)
+			if !ok {
+				continue
+			}
+			switch {
+			case an.CalleeName(ci) == "(*"+mainPkg+".store).GetInterface":
+				nUses++
+				an.EnumPaths(fn, nil, in, func(s *an.PathState) {
+					fromOAC(s, s.CallArgs(ci)[0], p.InstrPos(in))
+				})
+			case inner != nil && ci.Common().StaticCallee() == nil && !ci.Common().IsInvoke():
+				// the outer layer hands the store to the wrapped action
+				handsStore := false
+				for _, a := range ci.Common().Args {
+					if isStorePtr(a.Type()) {
+						handsStore = true
+					}
+				}
+				if !handsStore {
 					continue
 				}
 				nUses++
 				an.EnumPaths(fn, nil, in, func(s *an.PathState) {
-					recv := s.CallArgs(ci)[0]
-					oc, i := recv.CallOf()
-					if oc == nil || oc.Aux != mainPkg+".openAndCheck" || i != 0 {
-						bad = append(bad, "store used at "+p.InstrPos(in)+" is not openAndCheck's result: "+recv.K)
+					idx := indexOfInstr(s.Events, in)
+					if idx < 0 {
 						return
 					}
-					if !callErrNil(s, oc) {
-						bad = append(bad, "store used at "+p.InstrPos(in)+" without openAndCheck err==nil")
+					ev := s.Events[idx]
+					if ev.FnVal == nil || !termReadsFreeVar(ev.FnVal, innerFV) {
+						bad = append(bad, "store handed at "+p.InstrPos(in)+" to a function value other than the wrapped action")
+					}
+					for j, a := range ci.Common().Args {
+						if isStorePtr(a.Type()) && j < len(ev.Args) {
+							fromOAC(s, ev.Args[j], p.InstrPos(in))
+						}
 					}
 				})
 			}
@@ -809,6 +855,46 @@ func c165(c *an.Ctx, p *an.Prog) {
 					if ci, ok := in.(ssa.CallInstruction); ok && an.CalleeName(ci) == "(*"+mainPkg+".store).GetInterface" {
 						nUses++
 					}
+				}
+			}
+		}
+		if inner != nil {
+			// the inner layer uses no store but the one it is handed
+			nInner := 0
+			var walk func(f *ssa.Function)
+			walk = func(f *ssa.Function) {
+				for _, in := range an.DeepInstrs(f) {
+					ci, ok := in.(ssa.CallInstruction)
+					if !ok || an.CalleeName(ci) != "(*"+mainPkg+".store).GetInterface" {
+						continue
+					}
+					nInner++
+					if f != inner {
+						continue // closure of the action: captures checked through the action's own uses
+					}
+					an.EnumPaths(f, nil, in, func(s *an.PathState) {
+						recv := s.CallArgs(ci)[0]
+						if recv.Op == "param" && isStorePtr(recv.V.Type()) {
+							return
+						}
+						if oc, i := recv.CallOf(); oc != nil && oc.Aux == mainPkg+".openAndCheck" && i == 0 && callErrNil(s, oc) {
+							return
+						}
+						bad = append(bad, "store used at "+p.InstrPos(in)+" is neither the store handed to the action nor openAndCheck's result: "+recv.K)
+					})
+				}
+				for _, a := range f.AnonFuncs {
+					walk(a)
+				}
+			}
+			walk(inner)
+			if nInner == 0 {
+				bad = append(bad, "wrapped action never uses a store (anchor lost)")
+			}
+			// it has no other caller that could hand it an unchecked store
+			for _, e := range p.Callers(inner, false) {
+				if e.Caller.Func != fn {
+					bad = append(bad, "wrapped action "+fnKey(inner)+" is also called from "+fnKey(e.Caller.Func))
 				}
 			}
 		}
@@ -837,6 +923,9 @@ func c165(c *an.Ctx, p *an.Prog) {
 					if e.Kind == "call" && strings.Contains(e.Callee, mainPkg+".Store).") {
 						bad = append(bad, "store call "+shortName(e.Callee)+" after openAndCheck failed")
 					}
+					if e.Kind == "call" && e.FnVal != nil && inner != nil {
+						bad = append(bad, "wrapped action runs after openAndCheck failed")
+					}
 				}
 			})
 			if !okExit {
@@ -846,9 +935,110 @@ func c165(c *an.Ctx, p *an.Prog) {
 		if len(an.CallsTo(fn, mainPkg+".openAndCheck")) == 0 {
 			bad = append(bad, "does not call openAndCheck")
 		}
-		c.Check(len(bad) == 0, "C16.5", "command:"+cm.name, p.Pos(cm.pos), "action "+fnKey(fn)+" uses only the store returned by openAndCheck under err==nil; failure exits with status 3", strings.Join(bad, "; "))
+		what := "action " + fnKey(fn)
+		if inner != nil {
+			what = "wrapper layer " + fnKey(fn) + " around " + fnKey(inner)
+		}
+		c.Check(len(bad) == 0, "C16.5", "command:"+cm.name, p.Pos(cm.pos), what+" uses only the store returned by openAndCheck under err==nil; failure exits with status 3", strings.Join(uniqS(bad), "; "))
 	}
 	if gated < 8 {
 		c.Undecided("C16.5", "commands", "-", fmt.Sprintf("VACUOUS: %d gated commands found, confirmed floor 8", gated))
 	}
+}
+
+func isStorePtr(t types.Type) bool {
+	pt, ok := t.(*types.Pointer)
+	return ok && pt.Elem().String() == mainPkg+".store"
+}
+
+// termReadsFreeVar: the term is the free variable itself or a load from it.
+func termReadsFreeVar(t *an.Term, fv *ssa.FreeVar) bool {
+	for t != nil {
+		if t.V == ssa.Value(fv) {
+			return true
+		}
+		if (t.Op == "load" || t.Op == "conv") && len(t.Args) == 1 {
+			t = t.Args[0]
+			continue
+		}
+		return false
+	}
+	return false
+}
+
+// cliActionLayers resolves an Action written as W(G): W a module function whose every return is a closure of one
+// anonymous function A, one of whose free variables is bound to the parameter that receives G (directly or through
+// the cell go/ssa allocates for a captured parameter). Returns (A, G, that free variable).
+func cliActionLayers(p *an.Prog, pk *packages.Package, e ast.Expr) (*ssa.Function, *ssa.Function, *ssa.FreeVar) {
+	call, ok := ast.Unparen(e).(*ast.CallExpr)
+	if !ok || len(call.Args) != 1 {
+		return nil, nil, nil
+	}
+	wid, ok := ast.Unparen(call.Fun).(*ast.Ident)
+	gid, ok2 := ast.Unparen(call.Args[0]).(*ast.Ident)
+	if !ok || !ok2 {
+		return nil, nil, nil
+	}
+	wo, _ := pk.TypesInfo.Uses[wid].(*types.Func)
+	gobj, _ := pk.TypesInfo.Uses[gid].(*types.Func)
+	if wo == nil || gobj == nil {
+		return nil, nil, nil
+	}
+	w, g := p.SSA.FuncValue(wo), p.SSA.FuncValue(gobj)
+	if w == nil || g == nil || len(w.Params) != 1 || len(w.Blocks) == 0 {
+		return nil, nil, nil
+	}
+	var outer *ssa.Function
+	var fv *ssa.FreeVar
+	for _, b := range w.Blocks {
+		for _, in := range b.Instrs {
+			ret, ok := in.(*ssa.Return)
+			if !ok {
+				continue
+			}
+			if len(ret.Results) != 1 {
+				return nil, nil, nil
+			}
+			v := ret.Results[0]
+			if ct, ok := v.(*ssa.ChangeType); ok {
+				v = ct.X
+			}
+			mc, ok := v.(*ssa.MakeClosure)
+			if !ok {
+				return nil, nil, nil
+			}
+			a := mc.Fn.(*ssa.Function)
+			if outer != nil && outer != a {
+				return nil, nil, nil
+			}
+			outer = a
+			for i, bnd := range mc.Bindings {
+				if bnd == ssa.Value(w.Params[0]) || isCellOfParam(bnd, w.Params[0]) {
+					fv = a.FreeVars[i]
+				}
+			}
+		}
+	}
+	if outer == nil || fv == nil {
+		return nil, nil, nil
+	}
+	return outer, g, fv
+}
+
+// isCellOfParam: v is the cell go/ssa allocates for a captured parameter, and the parameter is all that is ever stored in it.
+func isCellOfParam(v ssa.Value, prm *ssa.Parameter) bool {
+	al, ok := v.(*ssa.Alloc)
+	if !ok || al.Referrers() == nil {
+		return false
+	}
+	n := 0
+	for _, r := range *al.Referrers() {
+		if st, ok := r.(*ssa.Store); ok && st.Addr == ssa.Value(al) {
+			if st.Val != ssa.Value(prm) {
+				return false
+			}
+			n++
+		}
+	}
+	return n == 1
 }
